@@ -362,6 +362,12 @@ class ndarray:
         # arrays created as float stay float
         if self._f and isinstance(self._f[0], float) and isinstance(v, int) and not isinstance(v, bool):
             return float(v)
+        # integer arrays stay integer: numpy truncates a float that is assigned into them (towards zero)
+        if self._f and builtins.all((isinstance(e, int) and not isinstance(e, bool)) or getattr(e, "__sym__", None) == "int" for e in self._f):
+            if isinstance(v, float) and v == v and v not in (inf, -inf):
+                return int(v)
+            if getattr(v, "__sym__", None) == "float" and hasattr(v, "__trunc__"):
+                return v.__trunc__()
         if type(v) is f64:
             return float(v)
         return v
